@@ -480,7 +480,7 @@ def _flatness(ctrl):
     return worst
 
 
-def seg_dist(ctrl, p, best=float("inf"), tol=1e-12, depth=0):
+def seg_dist(ctrl, p, best=float("inf"), tol=1e-10, depth=0):
     """distance from p to the Bezier segment (float, branch and bound)"""
     if len(ctrl) == 2:
         return min(best, _dist_point_line_seg(ctrl[0], ctrl[1], p))
@@ -499,6 +499,28 @@ def seg_dist(ctrl, p, best=float("inf"), tol=1e-12, depth=0):
         best = seg_dist(right, p, best, tol, depth + 1)
         best = seg_dist(left, p, best, tol, depth + 1)
     return best
+
+
+def seg_clear(ctrl, p, margin, depth=0) -> bool:
+    """True iff every point of the segment is at least `margin` from p
+    (floats; conservative by the flatness of the accepted chords)"""
+    if _box_dist(ctrl, p) >= margin:
+        return True
+    if len(ctrl) == 2:
+        return _dist_point_line_seg(ctrl[0], ctrl[1], p) >= margin
+    fl_ = _flatness(ctrl)
+    if fl_ <= margin / 8 or depth > 50:
+        return _dist_point_line_seg(ctrl[0], ctrl[-1], p) - fl_ >= margin
+    left, right = bez_split(ctrl, 0.5)
+    return seg_clear(left, p, margin, depth + 1) and seg_clear(right, p, margin, depth + 1)
+
+
+def curve_clear(curve, p, margin) -> bool:
+    pf = fl(p)
+    for seg in curve:
+        if not seg_clear([fl(q) for q in seg], pf, margin):
+            return False
+    return True
 
 
 def curve_dist(curve, p) -> float:
@@ -703,7 +725,7 @@ class Region:
     # constructors
     @staticmethod
     def atom(curve):
-        return Region(("atom", curve))
+        return Region(("atom", curve if isinstance(curve, Atom) else Atom(curve)))
 
     @staticmethod
     def empty():
@@ -729,6 +751,7 @@ class Region:
         return Region(("xor", self, o))
 
     def atoms(self):
+        """the Atom objects (use .curve for the raw control points)"""
         n = self.node
         if n[0] == "atom":
             return [n[1]]
@@ -766,12 +789,16 @@ class Region:
         ats = self.atoms()
         if not ats:
             return float("inf")
-        return min(curve_dist(c, p) for c in ats)
+        return min(curve_dist(c.curve, p) for c in ats)
+
+    def clear(self, p, margin) -> bool:
+        """p is at least `margin` away from every atom boundary"""
+        return all(a.clear(p, margin) for a in self.atoms())
 
     def map(self, fn):
         n = self.node
         if n[0] == "atom":
-            return Region(("atom", curve_map(n[1], fn)))
+            return Region(("atom", Atom(curve_map(n[1].curve, fn))))
         return Region(
             (n[0],) + tuple(ch.map(fn) if isinstance(ch, Region) else ch
                             for ch in n[1:])
@@ -787,18 +814,94 @@ class Region:
         raise NotImplementedError
 
 
+class Atom:
+    """closed curve with cached float control points, box and orientation"""
+
+    def __init__(self, curve):
+        self.curve = [[(q[0], q[1]) for q in seg] for seg in curve]
+        self.fcurve = [[fl(q) for q in seg] for seg in self.curve]
+        self.polygon = curve_is_polygon(self.curve)
+        self.verts = [exp(v) for v in curve_vertices(self.curve)] if self.polygon else None
+        self.box = curve_box(self.fcurve)
+        self.area = curve_area(self.curve)
+        self.ccw = self.area > 0
+
+    def winding(self, p):
+        if p[0] < self.box[0] or p[0] > self.box[2] or p[1] < self.box[1] or p[1] > self.box[3]:
+            return 0
+        if self.polygon:
+            return polygon_winding_exact(self.verts, p)[0]
+        pf = fl(p)
+        total = 0.0
+        for seg in self.fcurve:
+            total += seg_angle(seg, pf)
+        return round(total / TAU)
+
+    def contains(self, p):
+        w = self.winding(p)
+        return w == 1 if self.ccw else w == 0
+
+    def clear(self, p, margin):
+        pf = fl(p)
+        if _box_dist([(self.box[0], self.box[1]), (self.box[2], self.box[3])], pf) >= margin:
+            return True
+        for seg in self.fcurve:
+            if not seg_clear(seg, pf, margin):
+                return False
+        return True
+
+
 def atom_contains(curve, p) -> bool:
     """ccw: inside; cw: outside (p off the boundary)"""
-    w = curve_winding(curve, p)
-    area = curve_area(curve)
-    if area > 0:
-        return w == 1
-    return w == 0
+    if not isinstance(curve, Atom):
+        curve = Atom(curve)
+    return curve.contains(p)
 
 
 def curves_region_value(curves, p):
     """sum of winding numbers of the given closed curves about p"""
     return sum(curve_winding(c, p) for c in curves)
+
+
+def curves_relation(A, B, margin=0.0):
+    """
+    relation of two simple closed curves (orientation ignored):
+      'touch'    they meet (or, for curved data, come closer than margin)
+      'A_in_B'   A lies inside the bounded region of B
+      'B_in_A'
+      'apart'    bounded regions are disjoint
+    Exact for polygons (margin ignored); for curves: crossing finder plus
+    sampled clearance.
+    """
+    if curve_is_polygon(A) and curve_is_polygon(B):
+        ea = [(exp(s[0]), exp(s[1])) for s in A]
+        eb = [(exp(s[0]), exp(s[1])) for s in B]
+        ba, bb = curve_box(A), curve_box(B)
+        if _boxes_overlap(ba, bb):
+            for (a, b) in ea:
+                for (c, d) in eb:
+                    if segments_intersect_exact(a, b, c, d) is not None:
+                        return "touch"
+    else:
+        try:
+            if curve_curve_crossings(A, B):
+                return "touch"
+        except Degenerate:
+            return "touch"
+        if margin > 0:
+            for X, Y in ((A, B), (B, A)):
+                for seg in X:
+                    sf = [fl(q) for q in seg]
+                    for k in range(8):
+                        if not curve_clear(Y, bez_eval(sf, k / 8.0), margin):
+                            return "touch"
+    wa = abs(curve_winding(B, A[0][0]))
+    wb = abs(curve_winding(A, B[0][0]))
+    if wa == 1:
+        return "A_in_B"
+    if wb == 1:
+        return "B_in_A"
+    return "apart"
 
 
 # --------------------------------------------------------------------------
